@@ -47,8 +47,10 @@ func main() {
 
 func runScript(c map[string]any) common.Result {
 	dir, _ := os.MkdirTemp(os.Getenv("VERIF_WORK"), "repo2-script-")
-	defer os.RemoveAll(dir)
-	srv, err := sqlh.NewRepoServer(dir, "db")
+	if os.Getenv("VERIF_KEEP") == "" {
+		defer os.RemoveAll(dir)
+	}
+	srv, err := newServer(dir)
 	if err != nil {
 		return common.Result{"ok": false, "fp": "setup", "detail": err.Error()}
 	}
